@@ -397,7 +397,7 @@ class PCE500Memory:
                     if offset == IMEMRegisters.KIL:
                         pass
                 elif self._keyboard_overlay.data:
-                    overlay_offset = address - self._keyboard_overlay.start
+                    overlay_offset = (0x100000 + offset) - self._keyboard_overlay.start
                     if overlay_offset < len(self._keyboard_overlay.data):
                         value = int(self._keyboard_overlay.data[overlay_offset]) & 0xFF
                     else:
@@ -619,7 +619,7 @@ class PCE500Memory:
                     self._keyboard_overlay.data, bytearray
                 ):
                     # Write to writable overlay data
-                    overlay_offset = address - self._keyboard_overlay.start
+                    overlay_offset = (0x100000 + offset) - self._keyboard_overlay.start
                     if overlay_offset < len(self._keyboard_overlay.data):
                         self._keyboard_overlay.data[overlay_offset] = value
                         self._record_perfetto_write(
@@ -774,8 +774,10 @@ class PCE500Memory:
         """Add a memory overlay."""
         self._bus.add_overlay(overlay)
 
-        # Track keyboard overlay for fast access
-        if overlay.start >= 0x1000F0 and overlay.end <= 0x1000F2:
+        # Track keyboard overlay for fast access. The fast path serves all three key-port
+        # bytes (KOL/KOH/KIL) from this overlay, so only an overlay spanning exactly that block
+        # qualifies; a smaller overlay inside it goes through the ordinary overlay lookup.
+        if overlay.start == 0x1000F0 and overlay.end == 0x1000F2:
             self._keyboard_overlay = overlay
 
     def remove_overlay(self, name: str) -> None:
